@@ -3,6 +3,7 @@ package vlib
 import (
 	"encoding/json"
 	"fmt"
+	"io"
 	"os"
 	"os/exec"
 	"runtime"
@@ -97,6 +98,7 @@ func (r *Run) RunItems(items []string, work func(item string)) {
 	var wg sync.WaitGroup
 	outs := make([]workerOut, N)
 	fails := make([]string, N)
+	crashes := make([]string, N)
 	for k := 0; k < N; k++ {
 		wg.Add(1)
 		go func(k int) {
@@ -105,9 +107,11 @@ func (r *Run) RunItems(items []string, work func(item string)) {
 			cmd := exec.Command(os.Args[0], os.Args[1:]...)
 			cmd.Env = append(os.Environ(), fmt.Sprintf("VERIF_WORKER=%d/%d", k, N), "VERIF_WORKER_OUT="+outFile, "VERIF_WORKER_ITEMS="+itemsFile, "GOMAXPROCS=2",
 				"VERIF_TIER="+r.Tier)
-			cmd.Stderr = os.Stderr
+			tail := &tailBuf{max: 256 << 10}
+			cmd.Stderr = io.MultiWriter(os.Stderr, tail)
 			if err := cmd.Run(); err != nil {
 				fails[k] = err.Error()
+				crashes[k] = tail.String()
 				return
 			}
 			b, err := os.ReadFile(outFile)
@@ -122,11 +126,19 @@ func (r *Run) RunItems(items []string, work func(item string)) {
 	}
 	wg.Wait()
 	for k, f := range fails {
-		if f != "" {
-			// a crashed worker is a harness failure, never silently ignored
-			fmt.Printf("HARNESS-ERROR worker %d/%d failed: %s\n", k, N, f)
-			os.Exit(2)
+		if f == "" {
+			continue
 		}
+		// A worker that died of a panic or fatal error raised inside the code under test (typically in a goroutine
+		// the code started itself, where no recover of the harness can reach) is a finding about that code: the
+		// process that runs it would have crashed. Anything else is a harness failure, never silently ignored.
+		if fn, report := crashInCodeUnderTest(crashes[k]); fn != "" {
+			r.Violation("process-crash:"+fn, "the process running the code under test crashed (worker of shard "+strconv.Itoa(k)+"):\n"+report, map[string]interface{}{"crash": fn})
+			r.Cap("a worker process crashed; its share of the enumeration is incomplete")
+			continue
+		}
+		fmt.Printf("HARNESS-ERROR worker %d/%d failed: %s\n", k, N, f)
+		os.Exit(2)
 	}
 	for _, o := range outs {
 		for key, v := range o.Cov {
@@ -149,6 +161,84 @@ func (r *Run) RunItems(items []string, work func(item string)) {
 			r.Sample(s)
 		}
 	}
+}
+
+// tailBuf keeps the last max bytes written to it.
+type tailBuf struct {
+	mu  sync.Mutex
+	b   []byte
+	max int
+}
+
+func (t *tailBuf) Write(p []byte) (int, error) {
+	t.mu.Lock()
+	defer t.mu.Unlock()
+	t.b = append(t.b, p...)
+	if len(t.b) > t.max {
+		t.b = t.b[len(t.b)-t.max:]
+	}
+	return len(p), nil
+}
+
+func (t *tailBuf) String() string {
+	t.mu.Lock()
+	defer t.mu.Unlock()
+	return string(t.b)
+}
+
+// crashInCodeUnderTest looks for a Go runtime crash report (panic / fatal error) in a dead worker's stderr whose
+// crashing goroutine has a frame in the repository under test before any frame of the harness. It returns that
+// function and the head of the report.
+func crashInCodeUnderTest(stderr string) (string, string) {
+	i := strings.LastIndex(stderr, "\npanic: ")
+	if j := strings.LastIndex(stderr, "\nfatal error: "); j > i {
+		i = j
+	}
+	if i < 0 {
+		if strings.HasPrefix(stderr, "panic: ") || strings.HasPrefix(stderr, "fatal error: ") {
+			i = 0
+		} else {
+			return "", ""
+		}
+	}
+	rep := stderr[i:]
+	// the first goroutine listed is the crashing one
+	g := strings.Index(rep, "\ngoroutine ")
+	if g < 0 {
+		return "", ""
+	}
+	stack := rep[g+1:]
+	if e := strings.Index(stack, "\n\n"); e > 0 {
+		stack = stack[:e]
+	}
+	fn := ""
+	for _, ln := range strings.Split(stack, "\n") {
+		ln = strings.TrimSpace(ln)
+		if strings.HasPrefix(ln, "verif/") || strings.HasPrefix(ln, "main.") {
+			break // the harness is on the stack below: a recover there could have caught it, or the harness itself failed
+		}
+		if strings.HasPrefix(ln, "github.com/LiskHQ/lisk-engine/pkg/") && !strings.Contains(ln, "/pkg/verifrt/") {
+			fn = strings.TrimPrefix(ln, "github.com/LiskHQ/lisk-engine/pkg/")
+			if p := strings.Index(fn, "("); p > 0 && !strings.HasPrefix(fn[p:], "(*") {
+				fn = fn[:p]
+			}
+			if p := strings.LastIndex(fn, "({"); p > 0 {
+				fn = fn[:p]
+			}
+			if p := strings.Index(fn, "(0x"); p > 0 {
+				fn = fn[:p]
+			}
+			break
+		}
+	}
+	if fn == "" {
+		return "", ""
+	}
+	lines := strings.Split(rep, "\n")
+	if len(lines) > 40 {
+		lines = lines[:40]
+	}
+	return fn, strings.Join(lines, "\n")
 }
 
 func toInt(v interface{}) (int64, bool) {
